@@ -518,7 +518,12 @@ def catalogue(ctx):
         fq, params, gs = rows[i]
         ctx.violation(f"C04:catalogue:{fq}:guard-names", f"guard declaration of {fq} names a non-existent parameter",
             {"kind": "violation", "item": fq, "params": params, "guards": gs})
-    ctx.obligations(len(rows), len(rows) - len(bad))
+    from vp import findings as _findings  # pylint: disable=import-outside-toplevel
+    known = {k for k, e in _findings.load("C04").items() if e.get("status") == "known"}
+    n_known = sum(1 for i in bad if f"C04:catalogue:{rows[i][0]}:guard-names" in known)
+    # rows listed as known findings are reported, not claimed
+    ctx.obligations(len(rows) - n_known, len(rows) - len(bad))
+    ctx.coverage["catalogue_rows_known_findings"] = n_known
     ctx.coverage["catalogue_functions"] = nfun
     ctx.coverage["catalogue_guard_rows"] = len(rows)
     ctx.coverage["catalogue_refusal_probes"] = probes
@@ -530,8 +535,10 @@ def catalogue(ctx):
 
 # ---------------------------------------------------------------------------------------------
 
-STATIC = ["gate1_pass_iff", "gate1_typeerr_iff", "gate1_unitserr_iff", "gate1_magnitude_irrelevant",
-    "gate_seq_pass_iff", "bind_style_irrelevant", "guarded_call_runs_only_if_all_pass", "output_gate"]
+STATIC = ["C04_gate1_pass_iff", "C04_gate1_typeerr_iff", "C04_gate1_unitserr_iff", "C04_gate1_partition",
+    "C04_bare_number_refused", "C04_any_value_passes", "C04_magnitude_irrelevant", "C04_prefix_irrelevant",
+    "C04_seq_pass_iff", "C04_seq_first_failure", "C04_runs_only_if_all_pass", "C04_output_gate",
+    "C04_bind_style_irrelevant"]
 
 
 def decide_disagreements(ctx, cases, bad, stream):
